@@ -55,7 +55,12 @@ class K:
 
 MODULE_M2_INIT = '''
 FROM_SIB
+from . import other
 v = 'm2'
+def set_other(x):
+    other.set_v(x)
+def other_v():
+    return (other.get(), sib.via_other(), sib.oth_get())
 def get_v():
     return v
 def set_v(x):
@@ -79,8 +84,21 @@ class K:
         return (self.tag, v)
 '''
 
+MODULE_M2_OTHER = '''
+v = 'other'
+def get():
+    return v
+def set_v(x):
+    global v
+    v = x
+'''
+
 MODULE_M2_SIB = '''
+from . import other
+from .other import get as oth_get
 v = 'sib'
+def via_other():
+    return ('sib.other', other.get())
 def h():
     return ('h', v)
 def set_v(x):
@@ -132,11 +150,15 @@ class K:
     elif form == "pkg":
         head, M = "import m2\n" + own, "m2."
     else:
-        head, M = "from m2 import via_sib, sib, apply, maker, ctxname\n" + own, ""
+        head, M = "from m2 import via_sib, sib, apply, maker, ctxname, other_v, set_other\n" + own, ""
     G, S, B, KK = M + "get_v()", M + "set_v", M + "boom()", M + "K()"
     if form == "pkg_from":
         G, S = "via_sib()", "sib.set_v"
     AP, MK, CN = M + "apply", M + "maker", M + "ctxname"
+    OTHER = ""
+    if form in ("pkg", "pkg_from"):
+        # a module of the package imported relatively by the package and by its sibling is one shared instance
+        OTHER = (f"    log.append(('other', {M}other_v()))\n    {M}set_other('o-{me}')\n    log.append(('other2', {M}other_v()))\n")
     chain = f'''
 log = []
 def chain():
@@ -153,7 +175,7 @@ def chain():
     log.append(('closure', {MK}()()))
     log.append(('ctx', pyscript.get_global_ctx(), {CN}()))
     log.append(('{me}.after2', v, own_v()))
-    log.append(('K', {KK}.who()))
+{OTHER}    log.append(('K', {KK}.who()))
     try:
         log.append(('peek', only_in_{other}))
     except NameError as e:
@@ -180,7 +202,7 @@ def module_files(sibform):
         init = MODULE_M2_INIT.replace("FROM_SIB", "from . import sib").replace("SIBCALL", "sib.h()")
     else:
         init = MODULE_M2_INIT.replace("FROM_SIB", "from .sib import h\nfrom . import sib").replace("SIBCALL", "h()")
-    return {"m1.py": MODULE_M1, "m2/__init__.py": init, "m2/sib.py": MODULE_M2_SIB}
+    return {"m1.py": MODULE_M1, "m2/__init__.py": init, "m2/sib.py": MODULE_M2_SIB, "m2/other.py": MODULE_M2_OTHER}
 
 
 def canon(v):
@@ -203,7 +225,8 @@ def run_reference(fa, ea, fb, eb, sibform, place):
     import builtins
 
     pl = PLACEMENTS[place]
-    builtins.pyscript = _PyscriptShim({"a": pl[1], "b": pl[3], "m1": "modules.m1", "m2": "modules.m2", "m2.sib": "modules.m2.sib"})
+    builtins.pyscript = _PyscriptShim({"a": pl[1], "b": pl[3], "m1": "modules.m1", "m2": "modules.m2", "m2.sib": "modules.m2.sib",
+                                      "m2.other": "modules.m2.other"})
     try:
         return _run_reference(fa, ea, fb, eb, sibform)
     finally:
@@ -220,7 +243,7 @@ def _run_reference(fa, ea, fb, eb, sibform):
             fp = os.path.join(base, rel)
             os.makedirs(os.path.dirname(fp), exist_ok=True)
             open(fp, "w").write(src)
-        for n in ("a", "b", "m1", "m2", "m2.sib"):
+        for n in ("a", "b", "m1", "m2", "m2.sib", "m2.other"):
             sys.modules.pop(n, None)
         sys.path.insert(0, base)
         try:
@@ -245,13 +268,13 @@ def _run_reference(fa, ea, fb, eb, sibform):
             for me in ("a", "b"):
                 if me in mods:
                     out[me] = {"log": canon(mods[me].log), "v": mods[me].v}
-            for mn in ("m1", "m2", "m2.sib"):
+            for mn in ("m1", "m2", "m2.sib", "m2.other"):
                 if mn in sys.modules:
                     out[mn] = {"v": sys.modules[mn].v}
             return out
         finally:
             sys.path.remove(base)
-            for n in ("a", "b", "m1", "m2", "m2.sib"):
+            for n in ("a", "b", "m1", "m2", "m2.sib", "m2.other"):
                 sys.modules.pop(n, None)
     finally:
         shutil.rmtree(base, ignore_errors=True)
@@ -280,7 +303,13 @@ def run_pyscript(fa, ea, fb, eb, sibform, place, legacy):
             g = w.g(cn[me])
             if g is not None:
                 out[me] = {"log": canon(g.get("log", [])), "v": g.get("v")}
-        for mn, cn in (("m1", "modules.m1"), ("m2", "modules.m2"), ("m2.sib", "modules.m2.sib")):
+        from custom_components.pyscript.global_ctx import GlobalContextMgr
+
+        extra_ctx = sorted(n for n in GlobalContextMgr.contexts if n.startswith("modules.") and n not in (
+            "modules.m1", "modules.m2", "modules.m2.sib", "modules.m2.other"))
+        if extra_ctx:
+            out["unexpected_module_contexts"] = extra_ctx
+        for mn, cn in (("m1", "modules.m1"), ("m2", "modules.m2"), ("m2.sib", "modules.m2.sib"), ("m2.other", "modules.m2.other")):
             g = w.g(cn)
             if g is not None:
                 out[mn] = {"v": g.get("v")}
